@@ -93,7 +93,7 @@ ASSUMPTIONS = [
 ]
 BOUNDS_DOC = {"quick": "history depth 6 (h1) / 4 (h2, h2te) / 5 (ws/h1, ws/h2), full alphabet",
               "thorough": "history depth 8 (h1) / 6 (h2, h2te) / 7 (ws/h1, ws/h2), full alphabet"}
-BUDGET = {"quick": 100, "thorough": 1200}
+BUDGET = {"quick": 300, "thorough": 1200}
 
 # ---------------------------------------------------------------------------------------------
 # alphabets
